@@ -157,10 +157,21 @@ func (w *W) flush() {
 	w.evals = 0
 }
 
+// skipStream: development aid. VERIF_ONLY=<substring> restricts a run to the streams whose name
+// contains it (the registered commands never set it; a restricted run usually ends INCONCLUSIVE
+// because the per-property floor is not reached).
+func skipStream(stream string) bool {
+	only := os.Getenv("VERIF_ONLY")
+	return only != "" && !strings.Contains(stream, only)
+}
+
 // ParFor runs fn for every index in [0,n) of the named stream on all cores. Panics inside
 // fn are turned into violations (signature "panic:<site>") so that one crash does not end
 // the run. In replay mode only the recorded (stream, index) is executed.
 func (c *Ctx) ParFor(stream string, n int, fn func(w *W, i int)) {
+	if skipStream(stream) {
+		return
+	}
 	if c.Replay != nil {
 		if c.Replay.Stream != stream {
 			return
@@ -201,6 +212,9 @@ func (c *Ctx) ParFor(stream string, n int, fn func(w *W, i int)) {
 // Seq runs fn sequentially for every index (used where the monitor itself manages
 // goroutines or child processes).
 func (c *Ctx) Seq(stream string, n int, fn func(w *W, i int)) {
+	if skipStream(stream) {
+		return
+	}
 	w := &W{C: c, Stream: stream, counters: map[string]int64{}, nontriv: map[uint64]struct{}{}}
 	for i := 0; i < n; i++ {
 		if c.Replay != nil && (c.Replay.Stream != stream || c.Replay.Index != i) {
